@@ -197,6 +197,16 @@ def step (_s : Unit) (line : String) : Unit × List String :=
         let grant := if g == "N" then none else g.toNat?
         " ".intercalate ((clientStart ⟨c1, c2⟩ srv grant).map showEv)
       | _, _, _, _ => "bad-op"
+    | "enter" :: _ =>
+      match (field ws "o").map listOf with
+      | some os =>
+        match os.mapM parseOpt with
+        | some opts =>
+          let ns : String → Option Val := fun name => (opts.find? (fun kv => kv.1 == bytesOfStr name)).map (·.2)
+          let r := enterMain Gen.C18.SERVER_MAIN_PARAMS Gen.C18.MAIN_BINDING ns
+          ",".intercalate (r.map fun (p, v) => s!"{p}:{match v with | some v => showVal v | none => "?"}")
+        | none => "bad-op"
+      | none => "bad-op"
     | ["int", hex] =>
       match bytesOfHex hex with
       | none => "bad-op"
